@@ -188,3 +188,41 @@ func VerifC17Sema() {
 		verifrt.Cover("acquired")
 	}
 }
+
+// VerifC17SemaHold: capacity 1, two clients; whoever gets the slot keeps it
+// until the other client's Acquire has returned.  The other one can only
+// return through the context's cancellation, while no slot is free: an
+// Acquire that does not honour a done context leaves everybody blocked.
+func VerifC17SemaHold() {
+	sem := NewChanSemaphore(1)
+	ctx := &c17Ctx{done: make(chan struct{})}
+	finished := [2]chan struct{}{make(chan struct{}), make(chan struct{})}
+	var acquired, failed int32
+	var wg sync.WaitGroup
+	for i := 0; i < 2; i++ {
+		wg.Add(1)
+		go func(i int) {
+			defer wg.Done()
+			err := sem.Acquire(ctx)
+			close(finished[i])
+			if err != nil {
+				verifrt.Assert(err == context.Canceled && ctx.Err() != nil, "Acquire failed with something else than the error of a done context")
+				atomic.AddInt32(&failed, 1)
+
+				return
+			}
+			atomic.AddInt32(&acquired, 1)
+			<-finished[1-i] // hold the slot until the other Acquire returned
+			sem.Release()
+		}(i)
+	}
+	wg.Add(1)
+	go func() {
+		defer wg.Done()
+		ctx.cancel()
+	}()
+	wg.Wait()
+	verifrt.Assert(atomic.LoadInt32(&acquired) <= 1, "two holders on a semaphore of capacity 1")
+	verifrt.Assert(atomic.LoadInt32(&acquired)+atomic.LoadInt32(&failed) == 2, "a client neither acquired nor failed")
+	verifrt.Cover("done")
+}
